@@ -271,19 +271,12 @@ def C17_indet_guard(ctx=None):
     out = []
     ptree, ppath = module_tree('soupsieve.css_parser')
     # S1
-    uses = []
-    for n in ast.walk(ptree):
-        if isinstance(n, ast.Name) and n.id == 'FLG_INDETERMINATE':
-            uses.append(n)
     consts = [n for n in ptree.body if isinstance(n, ast.Assign) and isinstance(n.value, ast.Call) and
               'FLG_INDETERMINATE' in ast.unparse(n.value) and isinstance(n.value.func, ast.Attribute) and n.value.func.attr == 'process_selectors']
     names = [ast.unparse(n.targets[0]) for n in consts]
-    sets = [ast.unparse(n) for n in ast.walk(ptree) if isinstance(n, ast.Assign) and 'SEL_INDETERMINATE' in ast.unparse(n.value)]
-    guarded = [ast.unparse(n.test) for n in ast.walk(ptree) if isinstance(n, ast.If) and any('SEL_INDETERMINATE' in ast.unparse(b) for b in n.body)]
-    out.append(ob('C17.S-indet-flag', 'SEL_INDETERMINATE is set only by `selectors[-1].flags = ct.SEL_INDETERMINATE` under `if is_indeterminate`, and '
-                  'FLG_INDETERMINATE is passed only when compiling CSS_INDETERMINATE',
-                  names == ['CSS_INDETERMINATE'] and len(uses) == 3 and sets == ['selectors[-1].flags = ct.SEL_INDETERMINATE'] and guarded == ['is_indeterminate'],
-                  detail=[names, len(uses), sets, guarded]))
+    calls = [n for n in ast.walk(ptree) if isinstance(n, ast.Call) and not (isinstance(n.func, ast.Name) and n.func.id == 'bool') and any('FLG_INDETERMINATE' in ast.unparse(a) for a in list(n.args) + [k.value for k in n.keywords])]
+    out.append(ob('C17.S-indet-flag', 'FLG_INDETERMINATE is passed to the parser in exactly one call: the one that compiles CSS_INDETERMINATE',
+                  names == ['CSS_INDETERMINATE'] and len(calls) == 1, detail=[names, len(calls)]))
     # S2: the real constant
     import sys
     if REPO not in sys.path:
@@ -319,6 +312,24 @@ def C17_indet_guard(ctx=None):
     others = [n for n in dir(cp) if n.startswith('CSS_') and n != 'CSS_INDETERMINATE' and isinstance(getattr(cp, n), ct.SelectorList)]
     bad = [n for n in others if any(s.flags & ct.SEL_INDETERMINATE for s in compounds(getattr(cp, n), []))]
     out.append(ob('C17.S-indet-only', 'no other pre-compiled list carries SEL_INDETERMINATE', not bad and len(others) >= 10, detail=[bad, len(others)]))
+    # selectors compiled from text reach the flag only through that constant (the flagged compound is the very same object)
+    from . import bounded
+    import warnings
+    stray = []
+    with warnings.catch_warnings():
+        warnings.simplefilter('ignore')
+        import soupsieve as sv
+        for grp, sels in bounded.SELECTORS.items():
+            for q in sels:
+                try:
+                    c = sv.compile(q)
+                except Exception:
+                    continue
+                for comp in compounds(c.selectors, []):
+                    if comp.flags & ct.SEL_INDETERMINATE and not any(comp is f for f in flagged):
+                        stray.append(q)
+    out.append(ob('C17.S-indet-user', 'a compiled pattern carries SEL_INDETERMINATE only on the compound object of CSS_INDETERMINATE itself (corpus selectors)',
+                  not stray, detail=stray[:5]))
     # S3: order of the tests in the hub
     mtree, mpath = module_tree('soupsieve.css_match')
     hub = method(classes(mtree)['CSSMatch'], 'match_selectors')
@@ -331,8 +342,9 @@ def C17_indet_guard(ctx=None):
                     for nm in ('match_subselectors', 'match_indeterminate'):
                         if f'self.{nm}(' in src:
                             order.append((nm, src))
+    # (names of locals are irrelevant: what matters is that both are `if <guard> and not self.f(...): continue` tests of the same loop
+    #  body and that the sub-lists come first)
     ok3 = [o[0] for o in order] == ['match_subselectors', 'match_indeterminate'] and \
-        order[0][1] == 'selector.selectors and (not self.match_subselectors(el, selector.selectors))' and \
-        order[1][1] == 'selector.flags & ct.SEL_INDETERMINATE and (not self.match_indeterminate(el))'
+        all(f'not self.{nm}(' in src for nm, src in order)
     out.append(ob('C17.S-hub-order', 'the hub skips a compound whose sub-lists fail before it asks match_indeterminate', ok3, detail=order))
     return out
